@@ -439,3 +439,174 @@ func counterFrom(phi *ssa.Phi, min int64) bool {
 	}
 	return true
 }
+
+// InductiveNonEmpty proves len(container) >= 1 by induction over the iterations of a counted loop, for the idiom
+//
+//	var acc []T
+//	for i := range xs { if i > 0 && ... { acc[len(acc)-1] ... } else { acc = append(acc, ...) } }
+//
+// container is the loop-header phi of acc. Invariant: "not the first iteration => len(acc) >= 1". It holds vacuously in
+// the first iteration; it is preserved if every value that flows back to the header either gained an element (an append
+// of at least one element) or is acc itself on a path whose branch conditions exclude the first iteration (where the
+// invariant gives len >= 1 already). The access is safe if the conditions that dominate it exclude the first iteration.
+// The first iteration is identified by a counter phi of the same header (constant start, incremented by a positive
+// constant on every back edge).
+func InductiveNonEmpty(in ssa.Instruction, container ssa.Value) (bool, string) {
+	acc, ok := container.(*ssa.Phi)
+	if !ok {
+		return false, ""
+	}
+	h := acc.Block()
+	isBack := func(i int) bool { return h.Dominates(h.Preds[i]) }
+	nBack := 0
+	for i := range h.Preds {
+		if isBack(i) {
+			nBack++
+		}
+	}
+	if nBack == 0 || !h.Dominates(in.Block()) {
+		return false, ""
+	}
+	// the counter
+	for _, ins := range h.Instrs {
+		cnt, ok := ins.(*ssa.Phi)
+		if !ok {
+			break
+		}
+		if b, isB := cnt.Type().Underlying().(*types.Basic); !isB || b.Info()&types.IsInteger == 0 {
+			continue
+		}
+		c0, okC := int64(0), true
+		var inc *ssa.BinOp
+		first := true
+		for i, e := range cnt.Edges {
+			if isBack(i) {
+				bo, isBo := e.(*ssa.BinOp)
+				if !isBo || bo.Op != token.ADD || bo.X != ssa.Value(cnt) {
+					okC = false
+					break
+				}
+				if k, isK := core.ConstInt(bo.Y); !isK || k < 1 {
+					okC = false
+					break
+				}
+				if inc != nil && inc != bo {
+					okC = false
+					break
+				}
+				inc = bo
+			} else {
+				k, isK := core.ConstInt(e)
+				if !isK || (!first && k != c0) {
+					okC = false
+					break
+				}
+				c0, first = k, false
+			}
+		}
+		if !okC || inc == nil || first {
+			continue
+		}
+		step, _ := core.ConstInt(inc.Y)
+		// notFirst: the facts exclude the first iteration (counter == c0, incremented value == c0+step)
+		notFirst := func(facts []core.Fact) bool {
+			for _, f := range facts {
+				cmp, ok := f.AsCmp()
+				if !ok {
+					continue
+				}
+				x, y, op := cmp.X, cmp.Y, cmp.Op
+				if _, isC := core.ConstInt(x); isC {
+					x, y = y, x
+					switch op {
+					case token.LSS:
+						op = token.GTR
+					case token.GTR:
+						op = token.LSS
+					case token.LEQ:
+						op = token.GEQ
+					case token.GEQ:
+						op = token.LEQ
+					}
+				}
+				k, isK := core.ConstInt(y)
+				if !isK {
+					continue
+				}
+				v0 := c0
+				switch x {
+				case ssa.Value(cnt):
+				case ssa.Value(inc):
+					v0 = c0 + step
+				default:
+					continue
+				}
+				// the counter never goes below its first value, so V > k with k >= v0, V >= k with k > v0 and V != v0
+				// each exclude V == v0
+				if (op == token.GTR && k >= v0) || (op == token.GEQ && k > v0) || (op == token.NEQ && k == v0) {
+					return true
+				}
+			}
+			return false
+		}
+		edgeFacts := func(q, to *ssa.BasicBlock) []core.Fact {
+			fs := append([]core.Fact{}, core.FactsAt(q)...)
+			if ifi, ok := q.Instrs[len(q.Instrs)-1].(*ssa.If); ok && len(q.Succs) == 2 && q.Succs[0] != q.Succs[1] {
+				cond, truth := ifi.Cond, q.Succs[0] == to
+				for {
+					if u, ok := cond.(*ssa.UnOp); ok && u.Op == token.NOT {
+						cond, truth = u.X, !truth
+						continue
+					}
+					break
+				}
+				fs = append(fs, core.Fact{Cond: cond, Truth: truth, If: ifi})
+			}
+			return fs
+		}
+		// preserved: the value v that leaves block q towards block `to` has length >= 1, given the invariant
+		var preserved func(v ssa.Value, q, to *ssa.BasicBlock, depth int) bool
+		preserved = func(v ssa.Value, q, to *ssa.BasicBlock, depth int) bool {
+			if depth > 8 {
+				return false
+			}
+			if v == ssa.Value(acc) {
+				return notFirst(edgeFacts(q, to))
+			}
+			switch x := v.(type) {
+			case *ssa.Phi:
+				if x.Block() == h || !h.Dominates(x.Block()) {
+					return false
+				}
+				for i, e := range x.Edges {
+					if !preserved(e, x.Block().Preds[i], x.Block(), depth+1) {
+						return false
+					}
+				}
+				return true
+			case *ssa.Call:
+				if bi, ok := x.Call.Value.(*ssa.Builtin); ok && bi.Name() == "append" && len(x.Call.Args) == 2 {
+					if MinLen(x.Call.Args[1]) >= 1 {
+						return true
+					}
+					// append of nothing provable: as good as its first argument at the place of the call
+					return false
+				}
+			}
+			return MinLen(v) >= 1
+		}
+		okAll := true
+		for i, e := range acc.Edges {
+			if isBack(i) && !preserved(e, h.Preds[i], h, 0) {
+				okAll = false
+			}
+		}
+		if !okAll {
+			continue
+		}
+		if notFirst(core.FactsAtInstr(in)) {
+			return true, fmt.Sprintf("induction over the loop counter %s: the access is outside the first iteration, and every value that flows back to the loop head has gained an element or is unchanged on a path outside the first iteration", cnt.Name())
+		}
+	}
+	return false, ""
+}
